@@ -323,8 +323,21 @@ func shrinkCase(c Case, fails func(Case) bool) Case {
 	return cur
 }
 
+var reported = map[string]bool{}
+
+func firstReport(key string) bool {
+	if reported[key] {
+		return false
+	}
+	reported[key] = true
+	return true
+}
+
 func (r *runner) checkMonitor(c Case) {
 	if k, what, ps := monitor(c); k != "" {
+		if !firstReport(fmt.Sprint("monitor|", k, "|", ps["object"], "|", ps["midop"])) {
+			return
+		}
 		same := func(d Case) bool {
 			kk, _, pp := monitor(d)
 			return kk == k && fmt.Sprint(pp["midop"]) == fmt.Sprint(ps["midop"])
@@ -345,6 +358,9 @@ func (r *runner) check(c Case) {
 	d, _ := differs(r.m, c)
 	r.res.Traces++
 	if d {
+		if !firstReport("correspondence|" + c.Kind) {
+			return
+		}
 		small := shrinkCase(c, func(x Case) bool { dd, _ := differs(r.m, x); return dd })
 		_, what := differs(r.m, small)
 		r.res.Fail(vlib.Failure{Source: "correspondence", Kind: "c15-heap-iterator-model-differs", Params: map[string]interface{}{"object": c.Kind}, What: what, Case: small.Text()})
